@@ -427,83 +427,463 @@ def reused_attributes(fn_list):
     return out
 
 
-# ----------------------------------------------------------------- orientation of the border walk
-def border_walk_shape(fn):
-    """Facts about `extract_border_cycle`: index of the first neighbour taken at the start, scan direction of the
-    inner choice loop, presence of the first-match break.  Values are None when the construct is not recognised."""
-    ps = au.params(fn)
-    start = ps[1] if len(ps) > 1 else None
-    whiles = [s for s in fn.body if isinstance(s, ast.While)]
-    out = {"start": start, "while": whiles[0] if len(whiles) == 1 else None, "first": None, "scan": None, "loop": None,
-           "cur": None, "break": None}
-    wl = out["while"]
-    if wl is None or start is None:
-        return out
-    b = sym.Bindings(fn)
-    for lp in au.stmts(wl.body):
-        if not (isinstance(lp, ast.For) and isinstance(lp.target, ast.Name)):
+# =================================================================================================================
+# round 3 (hardening): role based recognisers on the normal form of hj_norm / canonical expressions of hj_scope
+# =================================================================================================================
+from . import hj_norm, hj_scope
+
+
+class Unrecognised(Exception):
+    """The code has a shape the recogniser does not read: the obligation ends `undecided` (neither pass nor alarm)."""
+
+    def __init__(self, construct, what=""):
+        super().__init__(construct)
+        self.construct, self.what = construct, what
+
+
+class Contradiction(Exception):
+    """A recognised construct contradicts the clause: reported as a finding by the rule that asked."""
+
+    def __init__(self, construct, what="", node=None):
+        super().__init__(construct)
+        self.construct, self.what, self.node = construct, what, node
+
+
+def norm_fn(ctx, modname, qual, keep=(), extra=(), public_methods=False, unroll=True, depth=3):
+    """(normalised copy of the function, Scope over it, Normaliser) - cached per run"""
+    cache = ctx.__dict__.setdefault("_hj_norm_cache", {})
+    key = (modname, qual, tuple(sorted(keep)), tuple(sorted(extra)), public_methods, unroll, depth)
+    if key not in cache:
+        fn0 = ctx.repo.func(modname, qual)
+        cls = qual.rsplit(".", 1)[0] if "." in qual and "<locals>" not in qual else None
+        nz = hj_norm.Normaliser(ctx.repo, modname, cls, keep=keep, extra=extra, public_methods=public_methods, unroll=unroll, depth=depth)
+        try:
+            fn = nz.function(fn0)
+        except RecursionError:
+            raise
+        cache[key] = (fn, hj_scope.Scope(fn), nz)
+    return cache[key]
+
+
+def undecided(ctx, rule, site, u: "Unrecognised"):
+    ctx.undecided(rule, site, u.construct, u.what)
+
+
+def tail(call):
+    return au.call_tail(call) if isinstance(call, ast.Call) else None
+
+
+def for_ancestors(node, stop=None):
+    return [l for l in loop_ancestors(node, stop=stop) if isinstance(l, (ast.For, ast.AsyncFor))]
+
+
+def strip_reversed(it):
+    """(sequence expr, 'forward' | 'backward')"""
+    if isinstance(it, ast.Call) and au.call_tail(it) == "reversed" and len(it.args) == 1:
+        return it.args[0], "backward"
+    if isinstance(it, ast.Subscript) and isinstance(it.slice, ast.Slice) and it.slice.lower is None and it.slice.upper is None:
+        st = au.const(it.slice.step) if it.slice.step is not None else 1
+        if st == -1:
+            return it.value, "backward"
+        if st == 1:
+            return it.value, "forward"
+    return it, "forward"
+
+
+def loop_elem(lp):
+    """(element target, index name | None, sequence expr, start) of a for loop, looking through enumerate"""
+    it, t = lp.iter, lp.target
+    if isinstance(it, ast.Call) and isinstance(it.func, ast.Name) and it.func.id == "enumerate" and it.args \
+            and isinstance(t, (ast.Tuple, ast.List)) and len(t.elts) == 2 and isinstance(t.elts[0], ast.Name):
+        start = it.args[1] if len(it.args) > 1 else next((k.value for k in it.keywords if k.arg == "start"), ast.Constant(value=0))
+        return t.elts[1], t.elts[0].id, it.args[0], start
+    return t, None, it, None
+
+
+def is_range_len(e, seq_src):
+    """`range(len(<seq_src>))`"""
+    return isinstance(e, ast.Call) and au.call_tail(e) == "range" and len(e.args) == 1 and isinstance(e.args[0], ast.Call) \
+        and au.call_tail(e.args[0]) == "len" and len(e.args[0].args) == 1 and au.src(e.args[0].args[0]) == seq_src
+
+
+def is_empty_container(e):
+    """'list' | 'set' | 'dict' | 'attr' for an expression that builds an empty container, else None"""
+    if isinstance(e, ast.List) and not e.elts:
+        return "list"
+    if isinstance(e, ast.Dict) and not e.keys:
+        return "dict"
+    if isinstance(e, ast.Call) and not e.args and not e.keywords and isinstance(e.func, ast.Name) and e.func.id in ("list", "set", "dict"):
+        return e.func.id
+    if isinstance(e, ast.Call) and au.call_tail(e) == "Attribute":
+        return "attr"
+    if isinstance(e, ast.Call) and au.call_tail(e) == "defaultdict" and len(e.args) == 1 and au.src(e.args[0]) in ("bool", "int"):
+        return "attr"
+    return None
+
+
+def straight_effect(stmts):
+    """symbolic effect of a run of simple `Name = expr` assignments executed in order: name -> expr over the state before"""
+    env = {}
+    for s in stmts:
+        if isinstance(s, ast.Assign) and len(s.targets) == 1 and isinstance(s.targets[0], ast.Name):
+            env[s.targets[0].id] = sym.subst(s.value, env)
+        elif isinstance(s, (ast.Expr, ast.Pass)):
             continue
-        it = lp.iter
-        direction = "forward"
-        if isinstance(it, ast.Call) and au.call_tail(it) == "reversed" and len(it.args) == 1:
-            it, direction = it.args[0], "backward"
-        elif isinstance(it, ast.Subscript) and isinstance(it.slice, ast.Slice) and it.slice.lower is None and it.slice.upper is None \
-                and au.const(it.slice.step) == -1:
-            it, direction = it.value, "backward"
-        if isinstance(it, ast.Call) and au.call_tail(it) == "vertex_to_vertices" and len(it.args) == 1 and isinstance(it.args[0], ast.Name):
-            out["loop"], out["scan"], out["cur"] = lp, direction, it.args[0].id
-            out["break"] = any(isinstance(x, ast.Break) for x in au.stmts(lp.body))
-    if out["cur"]:
-        c0 = b.resolve(ast.Name(id=out["cur"], ctx=ast.Load()), at=wl, keep=(start,))
-        if isinstance(c0, ast.Subscript) and isinstance(c0.value, ast.Call) and au.call_tail(c0.value) == "vertex_to_vertices" \
-                and len(c0.value.args) == 1 and is_name(c0.value.args[0], start):
-            k = au.const(c0.slice)
-            out["first"] = {0: "head", -1: "tail"}.get(k, "other") if isinstance(k, int) else "other"
-    return out
+        else:
+            return None
+    return env
 
 
-def check_walk_orientation(ctx, rule, modname, fn):
-    sh = border_walk_shape(fn)
-    site = ctx.site(modname, fn, sh["loop"] or sh["while"] or fn)
-    if sh["first"] is None or sh["scan"] is None:
-        ctx.fail(rule, site, "extract_border_cycle: first step `vertex_to_vertices(start)[k]` / choice loop over vertex_to_vertices(current) not found",
-                 "the orientation of the walk cannot be established")
+class Abs(Abstractor):
+    """Abstractor whose numeric terms fold constants (pi, tau, cos ...) and instance attributes under the default configuration"""
+
+    def __init__(self, atom, repo=None, modname=None, cls_qual=None):
+        super().__init__(atom)
+        self.repo, self.modname, self.cls_qual = repo, modname, cls_qual
+
+    def term(self, e):
+        e2 = e
+        if self.repo is not None and self.cls_qual and any(isinstance(n, ast.Attribute) for n in ast.walk(e)):
+            e2 = hj_scope.fold_defaults(e, self.repo, self.modname, self.cls_qual)
+        v = hj_scope.fold(e2)
+        if v is not None and not isinstance(v, bool):
+            if isinstance(v, float):
+                v = round(v, 9)
+                if v == int(v) and abs(v) < 1e12:
+                    v = int(v)
+            return ast.Constant(value=v)
+        return super().term(e)
+
+
+def compare_under(code, spec_src, axiom_src=None):
+    """order.compare of code against spec, both relaxed to True where the axiom (source over atom names) does not hold"""
+    if axiom_src:
+        ax = ast.parse(axiom_src, mode="eval").body
+        code = ast.BoolOp(op=ast.Or(), values=[ast.UnaryOp(op=ast.Not(), operand=ax), code])
+        spec_src = f"(not ({axiom_src})) or ({spec_src})"
+    return compare(code, spec_src)
+
+
+# ----------------------------------------------------------------- the border walk (C15-W1 / C17-W1)
+BORD_MOD = "processing.border"
+
+
+def _assigns_to(body, nm):
+    return [s for s in au.stmts(body) if isinstance(s, ast.Assign) and len(s.targets) == 1 and is_name(s.targets[0], nm)]
+
+
+def walk_facts(ctx):
+    """Facts about `extract_border_cycle` read off its normal form (helpers inlined).  Raises Unrecognised."""
+    cached = ctx.__dict__.get("_hj_walk")
+    if cached is not None:
+        if isinstance(cached, (Unrecognised, Contradiction)):
+            raise cached
+        return cached
+    try:
+        f = _walk_facts(ctx)
+    except (Unrecognised, Contradiction) as u:
+        ctx._hj_walk = u
+        raise
+    ctx._hj_walk = f
+    return f
+
+
+def _walk_facts(ctx):
+    fn, S, nz = norm_fn(ctx, BORD_MOD, "extract_border_cycle")
+    ps = au.params(fn)
+    if len(ps) < 2:
+        raise Unrecognised("extract_border_cycle: parameters (mesh, starting_point) not recognised")
+    mesh, start = ps[:2]
+    F = {"fn": fn, "S": S, "mesh": mesh, "start": start, "inlined": list(nz.inlined)}
+    rets = [r for r in au.walk(fn) if isinstance(r, ast.Return) and isinstance(r.value, ast.Tuple) and len(r.value.elts) == 2
+            and all(isinstance(x, ast.Name) for x in r.value.elts)]
+    if len(rets) != 1:
+        raise Unrecognised("extract_border_cycle: the exit returning (vertex list, edge list) is not recognised")
+    vl, el = (x.id for x in rets[0].value.elts)
+    F["vl"], F["el"], F["ret"] = vl, el, rets[0]
+
+    def appends(nm, where):
+        return [c for c in au.calls(where) if au.call_tail(c) == "append" and isinstance(c.func, ast.Attribute) and is_name(c.func.value, nm)
+                and len(c.args) == 1]
+    vrec = [c for c in appends(vl, fn) if loop_ancestors(c, stop=fn)]
+    if len(vrec) != 1 or not isinstance(vrec[0].args[0], ast.Name):
+        raise Unrecognised("extract_border_cycle: the statement that records the visited vertex inside the walk loop is not recognised")
+    cur = vrec[0].args[0].id
+    wl = loop_ancestors(vrec[0], stop=fn)[-1]
+    F["cur"], F["wl"], F["vrec"] = cur, wl, vrec[0]
+    erec = appends(el, wl)
+    prev = None
+    if len(erec) == 1:
+        ec = S.canon(erec[0].args[0], erec[0])
+        if isinstance(ec, ast.Call) and au.call_tail(ec) == "edge_id" and len(ec.args) == 2 and all(isinstance(a, ast.Name) for a in ec.args):
+            ns = [a.id for a in ec.args]
+            if cur in ns and len(set(ns)) == 2:
+                prev = [n for n in ns if n != cur][0]
+            elif ns == [cur, cur]:
+                raise Contradiction("extract_border_cycle: the edge recorded at each step is edge_id(current, current)",
+                                    "vertex list and edge list must describe the same closed walk: the edge of a step joins the previous and the current vertex", erec[0])
+    if prev is None:
+        raise Unrecognised("extract_border_cycle: the statement that records the edge (previous, current) inside the walk loop is not recognised")
+    F["prev"], F["erec"] = prev, erec[0]
+    # ---- the step
+    sc, sp = _assigns_to(wl.body, cur), _assigns_to(wl.body, prev)
+    if len(sc) != 1 or len(sp) != 1 or not in_same_block(sc[0], sp[0]):
+        raise Unrecognised("extract_border_cycle: the step that advances (previous, current) is not recognised")
+    blk, _ = au.enclosing_block(sc[0])
+    i0, i1 = sorted((block_pos(sc[0]), block_pos(sp[0])))
+    # the maximal run of plain assignments that ends with the step (a swap may go through a temporary assigned just before)
+    j = i0
+    while j > 0 and isinstance(blk[j - 1], ast.Assign) and len(blk[j - 1].targets) == 1 and isinstance(blk[j - 1].targets[0], ast.Name):
+        j -= 1
+    eff = straight_effect(blk[j:i1 + 1])
+    if eff is None or cur not in eff or prev not in eff:
+        raise Unrecognised("extract_border_cycle: the step that advances (previous, current) is not a plain assignment sequence")
+    F["step"] = blk[i0]
+    F["step_last"] = blk[i1]
+    F["new_prev"], F["new_cur"] = eff[prev], eff[cur]
+    loop_targets = {n for l in for_ancestors(blk[i0], stop=wl) for n in au.assigned_names(l.target)}
+    if isinstance(eff[prev], ast.Name) and eff[prev].id != cur and (eff[prev].id in loop_targets or au.same(eff[prev], eff[cur])):
+        raise Contradiction("extract_border_cycle: the step is not (previous, current) <- (current, chosen neighbour)",
+                            "after the step the previous vertex must be the vertex just left, otherwise the walk may turn back", blk[i0])
+    if not is_name(eff[prev], cur):
+        raise Unrecognised("extract_border_cycle: the new value of the previous vertex is not recognised")
+    if not isinstance(eff[cur], ast.Name):
+        raise Unrecognised("extract_border_cycle: the vertex the walk moves to is not a plain variable")
+    y = eff[cur].id
+    # ---- where does the chosen vertex come from
+    lp = None
+    for l in for_ancestors(F["step"], stop=wl):
+        if y in au.assigned_names(l.target):
+            lp = l
+            break
+    if lp is not None:
+        F["layout"] = "in-loop"
+        F["hit"] = F["step"]
+        F["guard_ok"] = True
+        blk2, _ = au.enclosing_block(F["step_last"])
+        F["break"] = any(isinstance(s, ast.Break) for s in blk2[block_pos(F["step_last"]) + 1:])
+        F["hit_block_stop"] = lp
+    else:
+        # search loop + result variable:  y (or a copy chain) is assigned a candidate under the search condition, None otherwise
+        aliases, hits, nones = {y}, [], []
+        todo = [y]
+        while todo:
+            nm = todo.pop()
+            for s in _assigns_to(wl.body, nm):
+                v = s.value
+                if isinstance(v, ast.Constant) and v.value is None:
+                    nones.append(s)
+                elif isinstance(v, ast.Name):
+                    l2 = next((l for l in for_ancestors(s, stop=wl) if v.id in au.assigned_names(l.target)), None)
+                    if l2 is not None:
+                        hits.append((s, l2))
+                    elif v.id not in aliases:
+                        aliases.add(v.id)
+                        todo.append(v.id)
+                else:
+                    raise Unrecognised("extract_border_cycle: the origin of the vertex the walk moves to is not recognised")
+        if len(hits) != 1:
+            raise Unrecognised("extract_border_cycle: the search for the next border vertex is not recognised")
+        hit, lp = hits[0]
+        F["layout"] = "search-result"
+        F["hit"] = hit
+        blk2, _ = au.enclosing_block(hit)
+        F["break"] = any(isinstance(s, ast.Break) for s in blk2[block_pos(hit) + 1:])
+        # guard of the step: `alias is not None`
+        guard = None
+        for t, pol, _at in path_condition(F["step"], stop=wl):
+            t2, pol2 = au.strip_not(t, pol)
+            if isinstance(t2, ast.Compare) and len(t2.ops) == 1 and isinstance(t2.left, ast.Name) and t2.left.id in aliases \
+                    and isinstance(t2.comparators[0], ast.Constant) and t2.comparators[0].value is None:
+                if (isinstance(t2.ops[0], ast.IsNot) and pol2) or (isinstance(t2.ops[0], ast.Is) and not pol2):
+                    guard = "is-not-none"
+            elif isinstance(t2, ast.Name) and t2.id in aliases and pol2:
+                guard = guard or "truthy"
+        F["guard"] = guard
+        # the step must come after the search loop, in the walk loop body
+        top_l, top_s = top_stmt_in(wl.body, lp), top_stmt_in(wl.body, F["step"])
+        if top_l is None or top_s is None or not block_pos(top_l) < block_pos(top_s):
+            raise Unrecognised("extract_border_cycle: the step does not follow the search of the next vertex")
+        for s in nones:
+            ok = any(s is x for x in lp.orelse) or (top_stmt_in(wl.body, s) is not None and block_pos(top_stmt_in(wl.body, s)) < block_pos(top_l))
+            if not ok:
+                raise Unrecognised("extract_border_cycle: the 'no neighbour found' value of the search is assigned at an unexpected place")
+    F["lp"] = lp
+    F["cand"] = y if F["layout"] == "in-loop" else F["hit"].value.id
+    seq, direction = strip_reversed(lp.iter)
+    seqc = S.canon(seq, lp)
+    seq2, d2 = strip_reversed(seqc)
+    if d2 == "backward":
+        direction = "backward" if direction == "forward" else "forward"
+    F["scan"] = direction
+    F["domain"] = seq2
+    return F
+
+
+def walk_first(F):
+    """'head' | 'tail' | 'other' | None : which neighbour of the start the walk leaves through"""
+    S, wl, cur, start = F["S"], F["wl"], F["cur"], F["start"]
+    c0 = S.canon(ast.Name(id=cur, ctx=ast.Load()), wl, keep=(start,))
+    if isinstance(c0, ast.Subscript) and isinstance(c0.value, ast.Call) and au.call_tail(c0.value) == "vertex_to_vertices" \
+            and len(c0.value.args) == 1 and is_name(c0.value.args[0], start):
+        k = au.const(c0.slice)
+        return {0: "head", -1: "tail"}.get(k, "other") if isinstance(k, int) else "other"
+    return None
+
+
+def check_walk_orientation(ctx, rule, modname=None, fn=None):
+    fn0 = ctx.repo.func(BORD_MOD, "extract_border_cycle")
+    try:
+        F = walk_facts(ctx)
+    except Contradiction as c:
+        ctx.undecided(rule, ctx.site(BORD_MOD, fn0), "extract_border_cycle: skeleton of the walk broken (see the skeleton clause)",
+                      "the orientation of the walk cannot be established: " + c.construct)
         return
-    ok = (sh["first"], sh["scan"]) in (("head", "forward"), ("tail", "backward"))
+    except Unrecognised as u:
+        ctx.undecided(rule, ctx.site(BORD_MOD, fn0), u.construct, "the orientation of the walk cannot be established" + (": " + u.what if u.what else ""))
+        return
+    site = ctx.site(BORD_MOD, fn0, F["lp"])
+    first = walk_first(F)
+    dom = F["domain"]
+    dom_ok = isinstance(dom, ast.Call) and au.call_tail(dom) == "vertex_to_vertices" and len(dom.args) == 1 and is_name(dom.args[0], F["cur"])
+    if first is None or not dom_ok:
+        ctx.undecided(rule, site, "extract_border_cycle: first step `vertex_to_vertices(start)[k]` / scan of vertex_to_vertices(current) not recognised",
+                      "the orientation of the walk cannot be established")
+        return
+    ok = (first, F["scan"]) in (("head", "forward"), ("tail", "backward"))
+    if first == "other":
+        ctx.fail(rule, site, "extract_border_cycle: the walk leaves the start through a neighbour that is neither the first nor the last of the sorted list",
+                 "only the first and the last entry of the sorted neighbour list of a border vertex are joined to it by a border edge")
+        return
     ctx.check(ok, rule, site, "extract_border_cycle: the first step and the scan of the neighbours do not walk the border in one orientation",
-              f"first step takes the {sh['first']} of the sorted neighbour list, the choice loop scans it {sh['scan']}: the sorted neighbours of a "
+              f"first step takes the {first} of the sorted neighbour list, the choice loop scans it {F['scan']}: the sorted neighbours of a "
               "border vertex start and end with its two border neighbours, interior chords to other border vertices lie in between.  Leaving "
               "through the head, the vertex just left is the tail of the next list and the next border vertex its head (first match); leaving "
               "through the tail while scanning forward meets the chords first: the walk follows an interior edge",
-              note=f"walk leaves through the {sh['first']} and scans {sh['scan']}")
-    ctx.check(bool(sh["break"]), rule, site, "extract_border_cycle: the choice loop does not stop at the first admissible neighbour",
+              note=f"walk leaves through the {first} and scans {F['scan']}")
+    ctx.check(bool(F["break"]), rule, site, "extract_border_cycle: the choice loop does not stop at the first admissible neighbour",
               "only the first admissible neighbour in scan order is guaranteed to be joined by a border edge", note="first match wins")
 
 
 def check_sort_contract(ctx, rule, modname="mesh.datatypes.surface", qual="SurfaceMesh._Connectivity._sort_vertex_neighborhoods"):
-    """the clause of the sorting contract the walk relies on: neighbours whose half edge (A, v) has no corner sort first, ascending"""
-    fn = ctx.repo.func(modname, qual)
-    site = ctx.site(modname, fn)
-    ok_default = ok_sort = False
-    keyname = None
-    for st in au.stmts(fn.body):
-        if isinstance(st, ast.Assign) and len(st.targets) == 1 and isinstance(st.targets[0], ast.Subscript) \
-                and isinstance(st.value, ast.Call) and au.call_tail(st.value) == "get" and len(st.value.args) == 2 \
-                and isinstance(st.value.args[0], ast.Call) and au.call_tail(st.value.args[0]) == "half_edge_to_corner":
-            d = st.value.args[1]
-            neg_inf = isinstance(d, ast.UnaryOp) and isinstance(d.op, ast.USub) and (
-                (isinstance(d.operand, ast.Call) and au.call_tail(d.operand) == "float" and d.operand.args and au.const(d.operand.args[0]) == "inf")
-                or au.src(d.operand) in ("math.inf", "np.inf", "inf"))
-            ok_default = neg_inf
-            keyname = st.targets[0].value.id if isinstance(st.targets[0].value, ast.Name) else None
+    """the clause of the sorting contract the walk relies on: neighbours whose half edge (A, v) has no corner sort first, ascending.
+    Read by role: the `.sort(key=K...)` of a neighbour list of self._adjV2V, K filled by `K[v] = <table>.get(<corner of (A, v)>, D)`."""
+    fn0 = ctx.repo.func(modname, qual)
+    site = ctx.site(modname, fn0)
+    fn, S, nz = norm_fn(ctx, modname, qual, unroll=False)
+    sorts = []
     for c in au.calls(fn):
-        if au.call_tail(c) == "sort" and isinstance(c.func, ast.Attribute) and isinstance(c.func.value, ast.Subscript) \
-                and au.is_self_attr(c.func.value.value, "_adjV2V"):
-            kws = {k.arg: k.value for k in c.keywords}
-            key = kws.get("key")
-            ok_sort = isinstance(key, ast.Lambda) and keyname is not None and isinstance(key.body, ast.Subscript) \
-                and is_name(key.body.value, keyname) and "reverse" not in kws
-    ctx.check(ok_default and ok_sort, rule, site,
-              "_sort_vertex_neighborhoods: the neighbour without a half-edge corner is not sorted first (key -inf, ascending)",
-              "extract_border_cycle relies on the sorted neighbour list of a border vertex starting with one border neighbour and ending with the other",
-              note="sorting contract: corner-less border neighbour first, ascending")
+        if au.call_tail(c) == "sort" and isinstance(c.func, ast.Attribute):
+            recv = S.canon(c.func.value, c)
+            if isinstance(recv, ast.Subscript) and au.is_self_attr(recv.value, "_adjV2V"):
+                sorts.append(c)
+    if len(sorts) != 1:
+        ctx.undecided(rule, site, "_sort_vertex_neighborhoods: the sort of the neighbour list self._adjV2V[A] is not recognised", "")
+        return
+    c = sorts[0]
+    kws = {k.arg: k.value for k in c.keywords}
+    key = kws.get("key")
+    rev = kws.get("reverse")
+    if rev is not None and au.const(rev) is not False:
+        if au.const(rev) is True:
+            ctx.fail(rule, site, "_sort_vertex_neighborhoods: the neighbour list is sorted in descending order (reverse=True)",
+                     "extract_border_cycle relies on the sorted neighbour list of a border vertex starting with the corner-less border neighbour")
+        else:
+            ctx.undecided(rule, site, "_sort_vertex_neighborhoods: `reverse` argument of the neighbour sort is not a constant", "")
+        return
+    table = None
+    if isinstance(key, ast.Lambda) and isinstance(key.body, ast.Subscript) and isinstance(key.body.value, ast.Name) \
+            and len(key.args.args) == 1 and is_name(key.body.slice, key.args.args[0].arg):
+        table = key.body.value.id
+    elif isinstance(key, ast.Attribute) and key.attr in ("__getitem__", "get") and isinstance(key.value, ast.Name):
+        table = key.value.id
+    if table is None:
+        ctx.undecided(rule, site, "_sort_vertex_neighborhoods: the sort key of the neighbour list is not a lookup in a per-neighbour table", "")
+        return
+    fills = [s for s in au.stmts(fn.body) if isinstance(s, ast.Assign) and len(s.targets) == 1 and isinstance(s.targets[0], ast.Subscript)
+             and is_name(s.targets[0].value, table)]
+    gets = []
+    for s in fills:
+        v = s.value
+        if isinstance(v, ast.Call) and au.call_tail(v) == "get" and len(v.args) == 2:
+            gets.append(S.canon(v.args[1], s))
+        else:
+            gets = None
+            break
+    if not gets:
+        ctx.undecided(rule, site, "_sort_vertex_neighborhoods: the sort index of a neighbour is not `<corner table>.get(<corner>, default)`", "")
+        return
+    verdicts = []
+    for d in gets:
+        neg = False
+        e = d
+        while isinstance(e, ast.UnaryOp) and isinstance(e.op, (ast.USub, ast.UAdd)):
+            neg = (not neg) if isinstance(e.op, ast.USub) else neg
+            e = e.operand
+        is_inf = (isinstance(e, ast.Call) and au.call_tail(e) == "float" and e.args and str(au.const(e.args[0])).lower().lstrip("+") in ("inf", "infinity")) \
+            or au.src(e) in ("math.inf", "np.inf", "numpy.inf", "inf", "np.Inf", "np.infty")
+        neg_txt = isinstance(e, ast.Call) and au.call_tail(e) == "float" and e.args and str(au.const(e.args[0])).lower() in ("-inf", "-infinity")
+        if (is_inf and neg) or (neg_txt and not neg):
+            verdicts.append("ok")
+        elif is_inf or neg_txt or isinstance(au.const(e), (int, float)):
+            verdicts.append("bad")
+        else:
+            verdicts.append("?")
+    if "bad" in verdicts:
+        ctx.fail(rule, site, "_sort_vertex_neighborhoods: the neighbour without a half-edge corner is not sorted first (key -inf, ascending)",
+                 "extract_border_cycle relies on the sorted neighbour list of a border vertex starting with one border neighbour and ending with the other")
+    elif "?" in verdicts:
+        ctx.undecided(rule, site, "_sort_vertex_neighborhoods: default sort index of the corner-less neighbour not recognised", "")
+    else:
+        ctx.ok(rule, site, "sorting contract: corner-less border neighbour first, ascending")
+
+
+def inner_conds(S, node, fn, keep=()):
+    """Scope.conds without the early exits of the top-level block of the function (input validation answered up front)"""
+    out = []
+    for t, pol, at in path_condition(node, stop=fn):
+        if isinstance(at, ast.If) and any(at is z for z in fn.body) and not any(at is a for a in au.ancestors(node)):
+            leaving = at.body if hj_norm.leaves(at.body) else at.orelse
+            last = leaving[-1] if leaving else None
+            trivial = isinstance(last, ast.Raise) or (len(leaving) <= 2 and isinstance(last, ast.Return) and not any(
+                isinstance(x, (ast.Assign, ast.AugAssign, ast.For, ast.While)) for x in leaving))
+            if trivial:
+                continue
+        out.append((S.canon(t, at, keep), pol))
+    return out
+
+
+def alias_canon(S, expr, at):
+    """expr with only those local names replaced that are plain aliases of an attribute chain / another name
+    (`fv = self.feat.feature_vertices`): containers built in the function keep their names (their identity matters)"""
+    keep = []
+    for n in {x.id for x in ast.walk(expr) if isinstance(x, ast.Name)}:
+        v = S.value(n, at)
+        if v is None or au.chain(v) is None:
+            keep.append(n)
+    return S.canon(expr, at, keep=tuple(keep))
+
+
+def alias_conds(S, node, stop=None):
+    return [(alias_canon(S, t, at), pol) for t, pol, at in path_condition(node, stop=stop)]
+
+
+def guarded(ctx, rule, modname, qual, f, *args):
+    """run one rule section; an unexpected exception inside the recogniser (a shape of code it was not written for) makes that
+    section `undecided` instead of aborting the whole check (the other sections still report)"""
+    from ..core import AnalysisError, Site
+    try:
+        return f(ctx, *args)
+    except AnalysisError as e:
+        # a vanished *private* anchor (renamed / merged helper) leaves this section undecided; a vanished public one stays an analysis error
+        import re
+        m = re.search(r"anchor function \S+::(\S+) not found", str(e))
+        if m and m.group(1).split(".")[-1].startswith("_") and not m.group(1).split(".")[-1].startswith("__"):
+            ctx.undecided(rule, Site("mouette." + modname, qual, 0), f"private helper {m.group(1)} no longer exists", "the code it held has moved: the clause is not decided")
+            return None
+        raise
+    except RecursionError:
+        ctx.undecided(rule, Site("mouette." + modname, qual, 0), f"{qual}: the recogniser recursed too deeply on this code", "")
+    except Exception as ex:     # noqa: BLE001
+        ctx.undecided(rule, Site("mouette." + modname, qual, 0), f"{qual}: the recogniser does not handle this code", f"{type(ex).__name__}: {str(ex)[:120]}")
+    return None
